@@ -286,7 +286,7 @@ PROPS = {
                      exhaustive="all chunk compositions of 5 short streams (<=10 bytes quick, <=12 thorough); "
                                 "header length fields 0..599 (+3) x protocol id {0,1} quick, all 65536 thorough; "
                                 "max-size frame split points; buffer-boundary streams"),
-                dict(gen="cl_task", n=(500, 40000), corpus=["cl"])],
+                dict(gen="cl_task", n=(500, 40000), corpus=["cl"]), dict(gen="srv_tcp", n=(600, 40000))],
         level_text="Proof: chunking_independent (for every list of reads the buffered two-state reader yields exactly the "
                    "frames/errors of a whole-stream specification), read_has_space / no_spurious_eof (buffer-full spurious EOF "
                    "unreachable), bad_header_ends_session, frames_roundtrip / no_loss_no_reread are Lean theorems over all byte "
@@ -463,7 +463,7 @@ PROPS = {
         required_theorems=["Rodbus.C08.deny_no_effect", "Rodbus.C08.allow_transparent", "Rodbus.C08.auth_first_and_args",
                            "Rodbus.C08.per_request", "Rodbus.C08.per_request_session", "Rodbus.C08.auth_table_correct",
                            "Rodbus.C08.read_only_policy", "Rodbus.C08.default_deny", "Rodbus.C08.deny_exception_is_01"],
-        suites=[dict(gen="srv_auth", n=(3000, 200000))],
+        suites=[dict(gen="srv_auth", n=(3000, 200000)), dict(gen="srv_rtu", n=(600, 40000))],
         level_text="Proof: deny_no_effect (deny => no handler call, states unchanged, reply [fc|0x80, 01], nothing on broadcast), allow_transparent "
                    "(allow => identical to the run without authorization except for the authorization call), auth_first_and_args (exactly one "
                    "authorization call, first, with the frame's unit id, the request's range or index and the session's role; none for malformed "
@@ -536,7 +536,7 @@ PROPS = {
                            "Rodbus.no_spurious_eof", "Rodbus.C06.no_spurious_eof", "Rodbus.C06.peek_in_bounds"],
         suites=[dict(gen="srv_fuzz", n=(3000, 400000)), dict(gen="rdr_fuzz", n=(3000, 400000)),
                 dict(gen="cl_fuzz", n=(800, 100000)),
-                dict(gen="srv_tcp", n=(800, 50000)), dict(gen="srv_rtu", n=(800, 50000)), dict(gen="net", n=(6, 200), jobs=16)],
+                dict(gen="srv_tcp", n=(800, 50000)), dict(gen="srv_rtu", n=(800, 50000)), dict(gen="net", n=(6, 200), jobs=16), dict(gen="pty_srv", n=(40, 600), jobs=16)],
         level_text="Proof for the modelled logic: bounds at the arithmetic/indexing sites mirrored from the Rust code (range_addresses_fit, "
                    "indexed_indices_fit, mbap_length_field_fits, byte_counts_fit, read_buffer_indices_in_bounds, peek_in_bounds, "
                    "reply_fits_writer), no internal error and no spurious EOF in any reachable reader state of either framer (so nothing can be "
@@ -567,7 +567,7 @@ PROPS = {
                            "Rodbus.C20.level_changes_transparent_server", "Rodbus.Client.decode_noninterference_client",
                            "Rodbus.Client.level_change_content_irrelevant", "Rodbus.Client.level_change_is_a_queued_command",
                            "Rodbus.Client.level_change_transparent_client_partial"],
-        suites=[dict(gen="dec_srv", n=(150, 6000)), dict(gen="dec_rdr", n=(150, 6000)), dict(gen="dec_cl", n=(200, 8000))],
+        suites=[dict(gen="dec_srv", n=(150, 6000)), dict(gen="dec_rdr", n=(150, 6000)), dict(gen="dec_cl", n=(200, 8000)), dict(gen="net", n=(6, 200), jobs=16)],
         level_text="Proof: decode_noninterference_server (the session model's bytes, application calls, final states and end kind do not depend on "
                    "the decode level: the level only selects log lines), level_change_transparent_server / level_changes_transparent_server (a "
                    "ChangeDecoding command inserted at any position - also in the middle of a partially received frame - changes nothing; no buffered "
@@ -590,16 +590,16 @@ PROPS = {
     ),
     "C13": dict(
         tables=[],
-        audit_modules=["RodbusModel.Audit.C13"],
-        required_theorems=["Rodbus.C13.decode_level_never_dials", "Rodbus.C13.wait_after_failed_attempt", "Rodbus.C13.announced_delays_follow_strategy_failures", "Rodbus.C13.legal_path", "Rodbus.C13.connecting_only_enabled", "Rodbus.C13.no_attempt_while_disabled",
+        audit_modules=["RodbusModel.Audit.C13", "RodbusModel.Audit.C14Serial"],
+        required_theorems=["Rodbus.C14Serial.no_open_while_disabled", "Rodbus.C14Serial.shutdown_final", "Rodbus.C13.decode_level_never_dials", "Rodbus.C13.wait_after_failed_attempt", "Rodbus.C13.announced_delays_follow_strategy_failures", "Rodbus.C13.legal_path", "Rodbus.C13.connecting_only_enabled", "Rodbus.C13.no_attempt_while_disabled",
                            "Rodbus.C13.connected_only_after_connecting", "Rodbus.C13.fail_fast", "Rodbus.C13.shutdown_from_anywhere",
                            "Rodbus.C13.disable_leads_to_disabled", "Rodbus.C13.wait_after_refused",
                            "Rodbus.C13.wait_after_lost_connection", "Rodbus.C13.announced_delays_follow_strategy",
                            "Rodbus.C13.exactly_once", "Rodbus.C13.never_sleeps_on_requests"],
         suites=[dict(gen="life", n=(45, 2500), jobs=16,
                      exhaustive="thorough: every action sequence of length <= 4 over {none, enable, disable, shutdown, drop handles, request} "
-                                "(one per stop) for each single environment fault followed by recovery")],
-        extra_oracle=life_oracle,
+                                "(one per stop) for each single environment fault followed by recovery"), dict(gen="sport", n=(40, 300), jobs=16)],
+        extra_oracle=lambda c, i: life_oracle(c, i) if c.startswith("life ") else None,
         level_text="Proof over the model of TcpChannelTask (run / run_inner / connect / try_connect_and_run / run_connection / "
                    "handle_failed_connection) + the command handling of ClientLoop, for EVERY script of user actions injected at every listener "
                    "callback and every idle point, every list of peer behaviours (refused, closed, garbage, silent, served), every (min,max) and "
@@ -614,12 +614,13 @@ PROPS = {
                    "oracle (legal path, delays, termination) on the implementation's own log.",
         level_note="Partial: real connect timing, OS errors and simultaneously-ready select! branches are environment; the generator keeps away from "
                    "schedules it cannot force (commands queued at the Connected gate of a connection the peer closes at once). Serial channels "
-                   "(SerialChannelTask) have the same loop structure but are not run (no serial port); they share ClientLoop. Trusted: Lean kernel, "
+                   "(SerialChannelTask) are modelled separately (Model/SerialLife, theorems C14Serial.*) and run on pseudo-terminals (suite sport = pty port). Trusted: Lean kernel, "
                    "hand-written lifecycle model tied by the life suite.",
         technique="Lean 4 invariant proofs over the life-cycle state machine + gated loopback runs of the production task + independent log oracle",
-        classify=lambda c, i: ["beh=" + c.split(" ")[4].split("/")[0], "states=%d" % min(12, i.count("g:")),
-                               "shutdown-in-script" if "g:Shutdown" in i else "wind-down"],
-        nontrivial=lambda c, i: i.count("g:") >= 3,
+        classify=lambda c, i: (["serial port states=%d" % min(12, i.count(",") + 1)] if c.startswith("pty ")
+                               else ["beh=" + c.split(" ")[4].split("/")[0], "states=%d" % min(12, i.count("g:")),
+                                     "shutdown-in-script" if "g:Shutdown" in i else "wind-down"]),
+        nontrivial=lambda c, i: (i.count(",") >= 2) if c.startswith("pty ") else i.count("g:") >= 3,
         finding_key=no_key,
         rule="cases = fixed fault/recovery scenarios + (thorough) exhaustive short action sequences + seeded random scripts of 2..10 stops over "
              "1..4 peer behaviours, retry (10..50, 10..200) ms, timeout limit 0..3; distinct = distinct case line; non-trivial = at least 3 "
